@@ -346,11 +346,29 @@ def rule_nan_policy(ctx):
         for kt in KIND_TS:
             env[kt] = kind
         live = []
+
+        def lookups(p):
+            # look-ups of the function name in a literal table ({'all': True, 'any': False}[name]): (found?) per look-up, under this scenario
+            out = []
+            for x in T.subterms(p.value):
+                if x[0] == 'sub' and x[1][0] == 'dict' and T.contains(x[2], NAME_T):
+                    k = val_eval(x[2], env)
+                    keys = [val_eval(kk, env) for kk, _ in x[1][1]]
+                    if k is not UNKNOWN and UNKNOWN not in keys:
+                        out.append(k in keys)
+            return out
+        all_lookups = [f for p in masked_paths for f in lookups(p)]
         for p in masked_paths:
             dec = [(val_eval(a, env), pol) for a, pol in p.guards if T.contains(a, NAME_T) or any(T.contains(a, kt) for kt in KIND_TS)]
             # (guards that mention the name only inside a larger, unevaluable term - the ndim test of the filled result - do not constrain the scenario)
-            if all(bool(r) == pol for r, pol in dec if r is not UNKNOWN):
-                live.append(p)
+            if not all(bool(r) == pol for r, pol in dec if r is not UNKNOWN):
+                continue
+            # `try: v = TABLE[name] / except KeyError: ...`: the path through the table is the scenario's only when the name is in it, the handler's only when it is not
+            if any(f is False for f in lookups(p)):
+                continue
+            if any(a[0] == 'tryfail' and 'KeyError' in T.show(a) and pol is True for a, pol in p.guards) and all_lookups and all(all_lookups):
+                continue
+            live.append(p)
         for p in live:
             fills = [x for x in T.subterms(p.value) if x[0] == 'call' and T.call_name(x) == 'filled' and x[2]]
             if not fills:
